@@ -25,19 +25,88 @@ func strip(v ssa.Value) ssa.Value {
 			v = x.X
 		case *ssa.MakeInterface:
 			v = x.X
+		case *ssa.Call:
+			// the value of an immediately-invoked literal with a single return is what it returns
+			if r := iifeResult(x, 0); r != nil && x.Call.Signature().Results().Len() == 1 {
+				v = r
+				continue
+			}
+			return v
+		case *ssa.Extract:
+			if cl, ok := x.Tuple.(*ssa.Call); ok {
+				if r := iifeResult(cl, x.Index); r != nil {
+					v = r
+					continue
+				}
+			}
+			return v
 		default:
 			return v
 		}
 	}
 }
 
+// iifeResult: result k of the single return of the immediately-invoked literal called by cl (nil otherwise).
+func iifeResult(cl *ssa.Call, k int) ssa.Value {
+	g := iifeCallee(cl)
+	if g == nil {
+		return nil
+	}
+	var ret *ssa.Return
+	for _, b := range g.Blocks {
+		if r, ok := b.Instrs[len(b.Instrs)-1].(*ssa.Return); ok && g.Recover != b {
+			if ret != nil {
+				return nil
+			}
+			ret = r
+		}
+	}
+	if ret == nil || k >= len(ret.Results) {
+		return nil
+	}
+	return ret.Results[k]
+}
+
+// captured: the parent's cell a free variable of an immediately-invoked literal is bound to.
+func captured(fv *ssa.FreeVar) ssa.Value {
+	g := fv.Parent()
+	cl := iifeCall(g)
+	if cl == nil {
+		return nil
+	}
+	mc, ok := cl.Call.Value.(*ssa.MakeClosure)
+	if !ok {
+		return nil
+	}
+	for i, f := range g.FreeVars {
+		if f == fv && i < len(mc.Bindings) {
+			return mc.Bindings[i]
+		}
+	}
+	return nil
+}
+
 // canon identifies a load of a local cell (captured variable or address-taken local) with the cell.
 func canon(v ssa.Value) ssa.Value {
 	v = strip(v)
 	if u, ok := v.(*ssa.UnOp); ok && u.Op == token.MUL {
-		switch u.X.(type) {
-		case *ssa.Alloc, *ssa.FreeVar:
-			return u.X
+		switch x := u.X.(type) {
+		case *ssa.Alloc:
+			return x
+		case *ssa.FreeVar:
+			// a variable captured by an immediately-invoked literal is the parent's variable
+			for d := 0; d < 8; d++ {
+				b := captured(x)
+				if b == nil {
+					break
+				}
+				if fv2, ok := b.(*ssa.FreeVar); ok {
+					x = fv2
+					continue
+				}
+				return b
+			}
+			return x
 		}
 	}
 	return v
